@@ -128,6 +128,7 @@ package token
 // one token per chunk, in order; accepted iff every chunk is
 //@ func (*Tokenizer).Tokenize
 //@   property C03 C12
+//@   reports_all
 //@   requires [wired] t.chunker != nil && t.factory != nil
 //@   ensures [chunker_error_kept] t.chunker.Chunks(s).1 != nil ==> result.1 != nil
 //@   ensures [one_token_per_chunk] t.chunker.Chunks(s).1 == nil ==> len(result.0) == len(t.chunker.Chunks(s).0)
